@@ -2,7 +2,7 @@
    reference ranking side by side with the implementation's observed results, and validate
    the skip list's lanes on every probe.  Case format: header of harness/cmd/c11/main.go. *)
 From Coq Require Import ZArith List Bool.
-From FV Require Import Lib.Sx C11.Spec C11.Model.
+From FV Require Import Lib.Sx C11.Spec C11.Model C11.LaneModel.
 Import ListNotations.
 Open Scope Z_scope.
 
@@ -34,7 +34,7 @@ Record probe := mkProbe {
   pr_head_spans : list Z; pr_head_fwds : list Z; pr_nodes : list pnode;
   pr_tail : Z; pr_length : Z; pr_level : Z; pr_dict : list (Z * Z) }.
 
-Inductive obs := ROut (o : out) | RProbe (p : probe).
+Inductive obs := ROut (o : out) (h : Z) | RProbe (p : probe).
 
 Definition dec_pnode (s : sx) : option pnode :=
   match s with
@@ -51,10 +51,11 @@ Definition dec_pair (s : sx) : option (Z * Z) :=
 
 Definition dec_obs (s : sx) : option obs :=
   match s with
-  | SList [SInt 0; SInt b] => Some (ROut (OBool (zb b)))
-  | SList [SInt 1; SInt z] => Some (ROut (OInt z))
-  | SList [SInt 2; l] => match sx_ints l with Some l => Some (ROut (OList l)) | None => None end
-  | SList [SInt 3] => Some (ROut OCrash)
+  | SList [SInt 0; SInt b] => Some (ROut (OBool (zb b)) 1)
+  | SList [SInt 0; SInt b; SInt h] => Some (ROut (OBool (zb b)) h)
+  | SList [SInt 1; SInt z] => Some (ROut (OInt z) 1)
+  | SList [SInt 2; l] => match sx_ints l with Some l => Some (ROut (OList l) 1) | None => None end
+  | SList [SInt 3] => Some (ROut OCrash 1)
   | SList [SInt 4; SList [hs; hf]; SList ns; SInt t; SInt len; SInt lvl; SList d] =>
       match sx_ints hs, sx_ints hf, map_opt dec_pnode ns, map_opt dec_pair d with
       | Some hs, Some hf, Some ns, Some d => Some (RProbe (mkProbe hs hf ns t len lvl d))
@@ -148,34 +149,70 @@ Definition probe_corr (z : zset) (p : probe) : verdict :=
  (vjoin (check_that (list_eqb pair_eqb (pr_dict p) (sort_pairs (dict z))) (VMismatch 12))
         (check_that (structure_ok p) (VMismatch 13))).
 
-(* the reference is compared at every step; the model until its first mismatch, which is
-   remembered in [first] while the walk goes on looking for a property failure *)
-Fixpoint walk_history (first : verdict) (live : bool) (z : zset) (st : list entry)
+(* ---- the lane model against the probe: exact comparison of every node's score, member,
+   spans, forward references (as chain positions), backward reference; the header's levels;
+   tail, length and level *)
+Fixpoint pos_of (e : Z) (chain : list (Z * node)) (i : Z) : Z :=
+  match chain with
+  | [] => -1
+  | (k, _) :: r => if k =? e then i else pos_of e r (i + 1)
+  end.
+
+Definition ref_num (chain : list (Z * node)) (r : ref) : Z :=
+  match r with Nil => 0 | Head => 0 | Node e => pos_of e chain 1 end.
+
+Fixpoint list_eqb2 {X Y} (eq : X -> Y -> bool) (a : list X) (b : list Y) : bool :=
+  match a, b with
+  | [], [] => true
+  | x :: a', y :: b' => eq x y && list_eqb2 eq a' b'
+  | _, _ => false
+  end.
+
+Definition lane_probe_ok (z : lzsl) (p : probe) : bool :=
+  let chain := lnodes z in
+  let num := ref_num chain in
+  list_eqb Z.eqb (map span (hlv z)) (pr_head_spans p) &&
+  list_eqb Z.eqb (map (fun c => num (fwd c)) (hlv z)) (pr_head_fwds p) &&
+  (Z.of_nat (length chain) =? zlen (pr_nodes p)) &&
+  list_eqb2 (fun (a : Z * node) (b : pnode) =>
+              (fst a =? p_member b) && (nscore (snd a) =? p_score b) &&
+              list_eqb Z.eqb (map span (nlv (snd a))) (p_spans b) &&
+              list_eqb Z.eqb (map (fun c => num (fwd c)) (nlv (snd a))) (p_fwds b) &&
+              (num (nback (snd a)) =? p_back b))
+           chain (pr_nodes p) &&
+  (num (ltail z) =? pr_tail p) && (llen z =? pr_length p) && (Z.of_nat (llevel z) =? pr_level p).
+
+(* the reference is compared at every step; the models (stage 1: level-0 scans, stage 2: the
+   lanes, fed with the observed node heights) until their first mismatch, which is remembered
+   in [first] while the walk goes on looking for a property failure *)
+Fixpoint walk_history (first : verdict) (live : bool) (z : zset) (lzs : lzset) (st : list entry)
          (its : list item) (rs : list obs) : verdict :=
   match its, rs with
   | [], [] => first
-  | IOp o :: its', ROut r :: rs' =>
+  | IOp o :: its', ROut r h :: rs' =>
       let '(st1, so) := spec_step st o in
       match check_that (out_eqb so r) (VPropFail (sentence o)) with
       | VOk =>
           if live then
             let '(z1, mo) := step z o in
-            match check_that (out_eqb mo r) (VMismatch (sentence o)) with
-            | VOk => walk_history first true z1 st1 its' rs'
-            | v => walk_history v false z1 st1 its' rs'
+            let '(lz1, lo) := lstep (mkLZ (lz lzs) (ldict lzs) [Z.to_nat h]) o in
+            match vjoin (check_that (out_eqb mo r) (VMismatch (sentence o)))
+                        (check_that (out_eqb lo r) (VMismatch 21)) with
+            | VOk => walk_history first true z1 lz1 st1 its' rs'
+            | v => walk_history v false z1 lz1 st1 its' rs'
             end
-          else walk_history first false z st1 its' rs'
+          else walk_history first false z lzs st1 its' rs'
       | v => v
       end
   | IProbe :: its', RProbe p :: rs' =>
       match probe_prop st p with
       | VOk =>
           if live then
-            match probe_corr z p with
-            | VOk => walk_history first true z st its' rs'
-            | v => walk_history v false z st its' rs'
+            match vjoin (probe_corr z p) (check_that (lane_probe_ok (lz lzs) p) (VMismatch 22)) with
+            | VOk => walk_history first true z lzs st its' rs'
+            | v => walk_history v false z lzs st its' rs'
             end
-          else walk_history first false z st its' rs'
+          else walk_history first false z lzs st its' rs'
       | v => v
       end
   | _, _ => VBad
@@ -185,7 +222,7 @@ Definition check (c : sx) : verdict :=
   match c with
   | SList [SList [SInt _; SList ops]; SList rs] =>
       match map_opt dec_item ops, map_opt dec_obs rs with
-      | Some its, Some rs => walk_history VOk true empty [] its rs
+      | Some its, Some rs => walk_history VOk true empty (lzempty []) [] its rs
       | _, _ => VBad
       end
   | _ => VBad
